@@ -1,8 +1,13 @@
 //! C16: feature packing and feature distances.  One record per line, every f32 as its bit pattern:
-//!   pack  <k> style=<s> in=<b,...> blocks=<b,..(8)|b,..(8)|...> out=<b,...>           (or res=P on panic)
-//!         Feature::from_vec(&vec) -> lanes of every f32x8 (as_array_ref) -> Vec::<f32>::from_vec(&feature)
+//!   pack  <k> style=<s> in=<b,...> blocks=<b,..(8)|b,..(8)|...> out=<b,...> blocksv=<...> outv=<...>   (P on panic)
+//!         ALL conversion entry points of src/track/utils.rs (the three `FromVec` impls):
+//!         blocks  = lanes (as_array_ref) of Feature::from_vec(&vec)      [impl FromVec<&Vec<f32>, Feature>]
+//!         blocksv = lanes of Feature::from_vec(vec) with an OWNED Vec    [impl FromVec<Vec<f32>, Feature>]
+//!         out / outv = Vec::<f32>::from_vec(&feature) of the two          [impl FromVec<&Feature, Vec<f32>>]
 //!   dist  <k> kind=<s> u=<b,...> v=<b,...> eu=<b> eur=<b> cos=<b> cosr=<b> euu=<b> cosuu=<b>
 //!         euclidean(u,v), euclidean(v,u), cosine(u,v), cosine(v,u), euclidean(u,u), cosine(u,u)   (P = panicked)
+//!         on features built by reference; euv= cosv= the same two on features built BY VALUE, eum= cosm= mixed (u by
+//!         reference, v by value)
 //!   tri   <k> kind=<s> a=.. b=.. c=.. dab=<b> dbc=<b> dac=<b>
 //!   scale <k> ka=<b> kb=<b> u=.. v=.. cos=<b> coss=<b>           cosine(u,v) and cosine(ka*u, kb*v), ka, kb > 0
 //!   par   <k> kf=<b> u=.. cosp=<b>                               cosine(u, kf*u), kf != 0
@@ -26,17 +31,23 @@ fn feat(v: &[f32]) -> Feature {
     Feature::from_vec(&v.to_vec())
 }
 
+fn featv(v: &[f32]) -> Feature {
+    Feature::from_vec(v.to_vec())
+}
+
 fn pack_case(k: usize, style: &str, v: &[f32]) {
-    let r = guarded(|| {
-        let f = feat(v);
-        let blocks: Vec<String> = f.iter().map(|b| bits(b.as_array_ref())).collect();
-        let back: Vec<f32> = Vec::<f32>::from_vec(&f);
-        (blocks.join("|"), bits(&back))
-    });
-    match r {
-        None => println!("pack {} style={} in={} res=P", k, style, bits(v)),
-        Some((b, o)) => println!("pack {} style={} in={} blocks={} out={}", k, style, bits(v), b, o),
-    }
+    let one = |by_value: bool| {
+        guarded(|| {
+            let f = if by_value { featv(v) } else { feat(v) };
+            let blocks: Vec<String> = f.iter().map(|b| bits(b.as_array_ref())).collect();
+            let back: Vec<f32> = Vec::<f32>::from_vec(&f);
+            (blocks.join("|"), bits(&back))
+        })
+        .unwrap_or(("P".to_string(), "P".to_string()))
+    };
+    let (b, o) = one(false);
+    let (bv, ov) = one(true);
+    println!("pack {} style={} in={} blocks={} out={} blocksv={} outv={}", k, style, bits(v), b, o, bv, ov);
 }
 
 fn eu(u: &[f32], v: &[f32]) -> Option<f32> {
@@ -49,8 +60,10 @@ fn cs(u: &[f32], v: &[f32]) -> Option<f32> {
 
 fn dist_case(k: usize, kind: &str, u: &[f32], v: &[f32]) {
     println!(
-        "dist {} kind={} u={} v={} eu={} eur={} cos={} cosr={} euu={} cosuu={}",
-        k, kind, bits(u), bits(v), ob(eu(u, v)), ob(eu(v, u)), ob(cs(u, v)), ob(cs(v, u)), ob(eu(u, u)), ob(cs(u, u))
+        "dist {} kind={} u={} v={} eu={} eur={} cos={} cosr={} euu={} cosuu={} euv={} cosv={} eum={} cosm={}",
+        k, kind, bits(u), bits(v), ob(eu(u, v)), ob(eu(v, u)), ob(cs(u, v)), ob(cs(v, u)), ob(eu(u, u)), ob(cs(u, u)),
+        ob(guarded(|| euclidean(&featv(u), &featv(v)))), ob(guarded(|| cosine(&featv(u), &featv(v)))),
+        ob(guarded(|| euclidean(&feat(u), &featv(v)))), ob(guarded(|| cosine(&feat(u), &featv(v))))
     );
 }
 
